@@ -8,6 +8,15 @@ pid, tag = sys.argv[1], sys.argv[2]
 wt = f"/tmp/wt-{pid}-{tag}"
 prop = next(json.loads(l) for l in open("/verif/properties.jsonl") if json.loads(l)["id"] == pid)
 subprocess.run(["git", "-C", "/repo", "worktree", "add", "--detach", wt, "HEAD"], check=True, capture_output=True)
+import glob, os
+prior = []
+for d in sorted(glob.glob(f"/verif/seeded/{pid}-*")):
+    try:
+        m = json.load(open(d + "/meta.json"))
+        prior.append("- " + " ".join(str(m.get("summary", "")).split())[:400])
+    except Exception:
+        pass
+prior_txt = ("\n## Already used ideas (do something different, in other mechanisms / files)\n\n" + "\n".join(prior) + "\n") if prior else ""
 brief = f"""# Task brief
 
 You work ONLY inside `{wt}`, a scratch git worktree of the Python project XLSForm/pyxform
@@ -29,6 +38,7 @@ file; the tests that must keep passing are the `stable_pass` list in `/root/.vp/
 
 Quantified: {prop['quantifier']['text']}
 
+{prior_txt}
 ## What to produce
 
 A *realistic* change to the pyxform sources that BREAKS this property while the code still
